@@ -203,10 +203,21 @@ def run_sites(chk, facts, rid, cfg):
             r["discharged"] += len(ss)
             continue
         whys = "; ".join(sorted({s["why"] for s in ss}))[:300]
+        extra = ""
+        asum0 = getattr(facts, "_argsum", None)
+        if asum0 is not None and asum0.closed(b):
+            cs = []
+            for cp, cbb in asum0.callers.get(b.path, [])[:6]:
+                cb = facts.body(cp, _fuzzy=False)
+                if cb is not None:
+                    cs.append(f"{cb.file}:{cb.blocks[cbb].term.line}")
+            extra = (f"; this function is entered only through its direct call site(s) ({', '.join(cs)}), whose argument facts are "
+                     f"assumed on entry ({asum0.reg.get(b.path) or 'none established today'}): a caller that no longer establishes "
+                     f"a bound or ordering it used to establish makes the site unprovable here")
         chk.ob(rid, f"{key}: {len(ss)} unproven site(s) at line(s) {lines}, baseline tolerates {allowed}", False,
                key=f"site|{key}", file=b.file, line=lines[-1], fn=b.path,
                detail=f"a panic-capable operation that the analysis cannot prove safe for every input was added to code "
-                      f"that handles untrusted data, or a guard that made it provable was removed ({whys})")
+                      f"that handles untrusted data, or a guard that made it provable was removed ({whys}){extra}")
     if any(s.get("iv") is not None and s["iv"].used_steps_assumption for s in sites):
         from ..intervals import A_STEPS
         chk.assume(A_STEPS)
@@ -308,8 +319,8 @@ def run_engine_fixture(chk, rid="engine-fixture"):
                 chk.ob(rid, f"idiom {name}: {len(res.sites) - len(bad)} of {len(res.sites)} site(s) proved", not bad and bool(res.sites),
                        key=f"idiom|{name}", file=b.file, line=b.lo, fn=b.path,
                        detail="a standard safe idiom is no longer proved: " + "; ".join(s["why"] for s in bad)[:200])
-        chk.floor(rid, "traps", nb, 26)
-        chk.floor(rid, "safe idioms", ng, 12)
+        chk.floor(rid, "traps", nb, 35)
+        chk.floor(rid, "safe idioms", ng, 22)
     finally:
         if "saved_pi" in locals():
             intervals.PARAM_INFO = saved_pi
